@@ -70,3 +70,79 @@ let () =
       Printf.sprintf "%s # fin=%s stop=%s locked=%s list=%s cbs=%s" tr fin (b01 st.SS.stop) (b01 st.SS.locked)
         (str_list (fun c -> string_of_int (int_of_nat c)) st.SS.lst) cbs
     | _ -> "ERR args")
+
+(* ---- two-source units (fused_stop_source / inplace_stop_token_adapter) -------------------------
+   Each source is compared with the same model on its own projection.
+   stopsource_up: the upstream source; the forwarding callback (id >= 8) is the library's functor and
+     logs nothing, so its EExec / EEnd events are hidden; a step with only hidden events is taken
+     eagerly (the body of the forwarding callback has no access to the upstream source).
+   stopsource_in: the inner source; request_stop calls made by the forwarding callback appear as
+     placeholder instructions F in the thread programs; a leading pseudo thread id 1000+mask says
+     which placeholders (in thread-major order) actually ran (bit set -> S, clear -> dropped);
+     ERsRet is hidden (the forwarding functor discards the result). *)
+let lockstep_hidden (visible : SS.evk -> bool) nthreads init tids : SS.st * string =
+  let buf = Buffer.create 256 in
+  let add t str = if Buffer.length buf > 0 then Buffer.add_char buf ';';
+    Buffer.add_string buf (Printf.sprintf "t%d %s" t str) in
+  let rec eager st =
+    let rec try_t t =
+      if t >= nthreads then None else
+        match SS.step (nat_of_int t) st with
+        | Some (st', evs) when List.for_all (fun (_, e) -> not (visible e)) evs -> Some st'
+        | _ -> try_t (t + 1) in
+    match try_t 0 with Some st' -> eager st' | None -> st in
+  let arr = Array.of_list tids in
+  let n = Array.length arr in
+  let rec go i st =
+    if i >= n then st else
+      let t = arr.(i) in
+      match SS.step (nat_of_int t) st with
+      | None -> add t "DISABLED"; st
+      | Some (st', evs) ->
+        let vis = List.filter (fun (_, e) -> visible e) evs in
+        if vis = [] then (add t "SILENT"; st')
+        else (List.iter (fun e -> add t (render e)) vis; go (i + List.length vis) (eager st'))
+  in
+  let st = go 0 (eager init) in
+  (st, Buffer.contents buf)
+
+let summary nthreads st =
+  let fin = String.concat "" (List.init nthreads (fun t -> b01 (SS.finished st (nat_of_int t)))) in
+  Printf.sprintf "fin=%s stop=%s locked=%s" fin (b01 st.SS.stop) (b01 st.SS.locked)
+
+let () =
+  Registry.register "stopsource_up" (fun args ->
+    match args with
+    | ths :: bods :: "|" :: tids ->
+      let progs = parse_threads ths in
+      let bodies = parse_bodies bods in
+      let visible = function
+        | SS.EExec c | SS.EEnd c -> int_of_nat c < 8
+        | _ -> true in
+      let n = List.length progs in
+      let (st, tr) = lockstep_hidden visible n (SS.init progs bodies) (ints_of_words tids) in
+      Printf.sprintf "%s # %s" tr (summary n st)
+    | _ -> "ERR args");
+  Registry.register "stopsource_in" (fun args ->
+    match args with
+    | ths :: bods :: "|" :: tids ->
+      let tids = ints_of_words tids in
+      let (mask, tids, prefix) = match tids with
+        | m :: rest when m >= 1000 -> (m - 1000, rest, Printf.sprintf "t%d cfg" m)
+        | _ -> (0, tids, "") in
+      (* resolve placeholders *)
+      let k = ref 0 in
+      let progs = List.map (fun th ->
+        let ws = List.filter (fun w -> w <> "" && w <> "-") (String.split_on_char ',' th) in
+        List.concat (List.map (fun w ->
+          if w = "F" then begin
+            let bit = (mask lsr !k) land 1 in incr k;
+            if bit = 1 then [SS.IReqStop] else [] end
+          else [parse_instr w]) ws)) (String.split_on_char '/' ths) in
+      let bodies = parse_bodies bods in
+      let visible = function SS.ERsRet _ -> false | _ -> true in
+      let n = List.length progs in
+      let (st, tr) = lockstep_hidden visible n (SS.init progs bodies) tids in
+      let tr = if prefix = "" then tr else if tr = "" then prefix else prefix ^ ";" ^ tr in
+      Printf.sprintf "%s # %s" tr (summary n st)
+    | _ -> "ERR args")
